@@ -228,6 +228,15 @@ impl Rewriter {
         if fl.label.is_some() {
             return None;
         }
+        if self.on("R-wild") {
+            // `for _ in a..b`: the unused wildcard gets a name so that invariants can mention the position
+            if let (Pat::Wild(_), Expr::Range(_)) = (pat_inner(&fl.pat), strip_paren(&fl.expr)) {
+                let i = self.fresh("i");
+                let mut n = fl.clone();
+                n.pat = Box::new(parse_quote!( #i ));
+                return Some(("R-wild".into(), Expr::ForLoop(n)));
+            }
+        }
         let it = strip_paren(&fl.expr);
         let Expr::MethodCall(mc) = it else { return None };
         let line = e.span().start().line;
@@ -884,7 +893,7 @@ impl VisitMut for Rewriter {
                 return;
             }
         }
-        if self.on("R-enum") || self.on("R-zip") || self.on("R-iterref") {
+        if self.on("R-enum") || self.on("R-zip") || self.on("R-iterref") || self.on("R-wild") {
             if let Some((rule, n)) = self.r_forloop(e) {
                 self.record(&rule, line, e, &n);
                 *e = n;
@@ -1018,6 +1027,7 @@ pub fn selftest() -> i32 {
         ("{ d.as_slice_mut().unwrap().sort_by(|a, b| c(a, b)); }", &["R-sortby"], "{ let __vx_cmp1 = | a , b | c (a , b) ; slice_sort_by (d . as_slice_mut () . unwrap () , __vx_cmp1) ; }", &["R-sortby"]),
         ("{ for &x in position.iter() { sum = sum + x * x } }", &["R-iterref"], "for __vx_k1 in 0 .. position . len () { let x = position [__vx_k1] ; sum = sum + x * x }", &["R-refpat", "R-iterref"]),
         ("{ normal.sample_iter(&mut self.rng).zip(current).map(|(x, eps)| x + *eps).collect() }", &["R-samplezip"], "for __vx_k1 in 0 .. current . len () { let x = normal . sample (& mut self . rng) ; let eps = & current [__vx_k1] ; __vx_out1 . push (x + * eps) ; } let _ = normal . sample (& mut self . rng) ; __vx_out1", &["R-samplezip"]),
+        ("{ for _ in 0..n { v.push(r.random()); } }", &["R-wild"], "for __vx_i1 in 0 .. n { v . push (r . random ()) ; }", &["R-wild"]),
         // nothing enabled: nothing changes
         ("{ (0..n).for_each(|i| v[i] = 0.5); }", &[], "(0 .. n) . for_each (| i | v [i] = 0.5) ;", &[]),
     ];
